@@ -23,7 +23,7 @@ RULE = ('histories of 100-600 DjangoCache calls (add, get, set, touch, delete, i
 DISTINCT = ('cells',)
 REQUIRED = ('calls_judged', 'histories', 'value_errors_matched', 'expired_lookups', 'default_timeout_applied',
             'version_moves', 'callable_defaults', 'forever_items_after_long_jump', 'lookups_with_expire_time_or_tag',
-            'calls_with_positional_version', 'calls_with_positional_arguments', 'calls_with_tuple_keys', 'calls_with_explicit_retry')
+            'calls_with_positional_version', 'calls_with_positional_arguments', 'calls_with_tuple_keys', 'calls_with_explicit_retry', 'contended_call_schedules')
 ASSUMPTIONS = ('Django itself casts the TIMEOUT parameter to int (BaseCache.__init__), so a short integer TIMEOUT is used',
                'return values the contract leaves open (set, clear) are not compared',
                'DjangoCache(directory, params) is instantiated directly (needs no configured Django settings)')
@@ -393,6 +393,84 @@ def call(fn):
         return ('raise', type(exc).__name__)
 
 
+def contended_calls(dc, sc, res, rng, params, label):
+    """The calls whose contract is about winning - add (stores only if the key is absent), incr / decr (no update is
+    lost), pop and delete (one caller gets the item) - made by several threads at once through one backend object or
+    through one object per thread: exactly one add succeeds, the increments add up, one pop / delete succeeds."""
+    from diskcache import DjangoCache
+    from ..sched import Sched, Recorder
+    d = sc.new()
+    clock = probe.set_clock(probe.VClock())
+    p = dict(params, DATABASE_TIMEOUT=0, OPTIONS={'disk_min_file_size': 64})
+    shared = rng.random() < 0.5
+    base = DjangoCache(d, p)
+    n = rng.randrange(2, 4)
+    backends = [base if shared else DjangoCache(d, p) for _ in range(n)]
+    what = rng.choice(['add', 'add', 'add expired', 'incr', 'pop', 'delete'])
+    ver = rng.choice([None, 2])
+    vkw = {} if ver is None else {'version': ver}
+    key = rng.choice(['k', 'a b', ('t', 1)])
+    if what == 'add expired':
+        base.set(key, 'old', timeout=5, **vkw)
+        clock.advance(60.0)
+    elif what == 'incr':
+        base.set(key, 10, timeout=None, **vkw)
+    elif what in ('pop', 'delete'):
+        base.set(key, 'L' * 100, timeout=None, **vkw)
+    sch = Sched(rng, clock, strategy=rng.choice(['random', 'random', 'preempt']), max_steps=20000,
+                preempt_points={rng.randrange(0, 60) for _ in range(3)})
+    rec = Recorder(sch)
+
+    def client(ci):
+        def run():
+            b = backends[ci]
+            if what.startswith('add'):
+                rec.call(ci, 'add', (key,), lambda: b.add(key, 'from-%d' % ci, timeout=None, **vkw))
+            elif what == 'incr':
+                rec.call(ci, 'incr', (key,), lambda: b.incr(key, ci + 1, **vkw))
+            elif what == 'pop':
+                rec.call(ci, 'pop', (key,), lambda: b.pop(key, 'MISS', **vkw))
+            else:
+                rec.call(ci, 'delete', (key,), lambda: b.delete(key, **vkw))
+        return run
+    try:
+        done = sch.run([client(i) for i in range(n)])
+        probe.set_controller(None)
+        wit = {'label': label, 'params': params, 'contended': what, 'threads': n, 'one_backend_object': shared,
+               'trace_hash': sch.trace_hash()}
+        errs = sch.errors()
+        if errs or not done:
+            res.violation('contended %s did not complete: %s' % (what, errs[0][1][1][-300:] if errs else 'schedule did not finish'), wit)
+            return
+        res.count('contended_call_schedules')
+        res.count('evaluations')
+        results = [(o['kind'], o['result']) for o in rec.ops]
+        final = base.get(key, 'MISS', **vkw)
+        if what.startswith('add'):
+            winners = [r for r in results if r == ('ok', True)]
+            if len(winners) != 1 or any(r not in (('ok', True), ('ok', False)) for r in results) or not str(final).startswith('from-'):
+                res.violation('%d threads added one absent key at once: results %r, the key now holds %r' % (n, results, final), wit)
+        elif what == 'incr':
+            want = 10 + sum(range(1, n + 1))
+            if final != want or sorted(r[1] for r in results)[-1] != want:
+                res.violation('%d threads incremented one key at once: results %r, the key now holds %r, expected %r' % (
+                    n, results, final, want), wit)
+        elif what == 'pop':
+            if sorted(map(repr, results)) != sorted(map(repr, [('ok', 'L' * 100)] + [('ok', 'MISS')] * (n - 1))) or final != 'MISS':
+                res.violation('%d threads popped one key at once: results %r' % (n, [(k, str(v)[:8]) for k, v in results]), wit)
+        else:
+            if sorted(r[1] for r in results) != [False] * (n - 1) + [True] or final != 'MISS':
+                res.violation('%d threads deleted one key at once: results %r' % (n, results), wit)
+    finally:
+        probe.set_controller(None)
+        for b in set(backends) | {base}:
+            try:
+                b.close()
+            except Exception:      # noqa: BLE001
+                pass
+        sc.drop(d)
+
+
 def run_shard(tier, seed, shard, nshards, res):
     dc = common.use_repo()
     probe.install()
@@ -403,5 +481,12 @@ def run_shard(tier, seed, shard, nshards, res):
             t, p, v, s = combos[(shard * 8 + i + seed) % len(combos)]
             params = {'TIMEOUT': t, 'KEY_PREFIX': p, 'VERSION': v, 'SHARDS': s}
             history(dc, sc, res, rng, params, 'c19 seed=%d shard=%d i=%d' % (seed, shard, i))
+            if res.counters.get('violations_raw', 0) > 8:
+                return
+        for i in range(25 if tier == "quick" else 300):
+            rng = common.rng_for(seed, 'c19c', shard, i)
+            t, p, v, s = combos[(shard * 8 + i + seed) % len(combos)]
+            contended_calls(dc, sc, res, rng, {'TIMEOUT': t, 'KEY_PREFIX': p, 'VERSION': v, 'SHARDS': s},
+                            'c19 contended seed=%d shard=%d i=%d' % (seed, shard, i))
             if res.counters.get('violations_raw', 0) > 8:
                 return
